@@ -241,3 +241,40 @@ def run(ctx):
     r5 = ctx.rule('R19.5', 'format padding (fillers) is computed from code-point counts, never from byte lengths')
     c18.unit_discipline(ctx, r5, only_sinks=('fillers',))
     r5.need(3)
+
+
+    # ---------------- R19.6
+    hash_range(ctx)
+
+def hash_range(ctx):
+    """R19.6: a hash is an integer in [0, 2^64).  Every integer a hash native builds itself comes from a u64 (a Hasher's finish,
+    a wrapping u64 computation) or is a constant; an inner hash is forwarded unchanged.  Unbounded big-integer arithmetic on hash
+    values (hash + 1, hash * 31, ...) leaves the range and makes the containers that re-hash the value fail."""
+    from .lib.facts import callee_name, op_place
+    mir = ctx.mir
+    r6 = ctx.rule('R19.6', 'hash natives build their integers from u64 values or constants, never by big-integer arithmetic')
+    ARITH = re.compile(r'LazyBigint.*as std::ops::(Add|Sub|Mul|Shl|BitXor|BitOr|BitAnd|Neg)|LazyBigint as num_traits::Pow|BigInt as std::ops::(Add|Sub|Mul|Shl)')
+    for b in mir.bodies:
+        top = strip_generics(mir.enclosing_fn(b)) if b.kind == 'closure' else b.nid
+        if not re.search(r'::add_\w*hash\w*$', top) or not b.file.startswith('src/builtin/'):
+            continue
+        for i, j, s in b.stmts():
+            if not (s['k'] == 'assign' and s['rv']['k'] == 'agg' and (s['rv'].get('adt') or '').endswith('xvalue::XValue') and s['rv'].get('v') == 'Int'):
+                continue
+            ol = op_local(s['rv']['ops'][0]) if s['rv']['ops'] else None
+            arith = []
+            from_u64 = False
+            for l in (mirq.backslice(b, [ol]) if ol is not None else ()):
+                for kind, dbb, idx, d in b.defs().get(l, []):
+                    if kind != 'call':
+                        continue
+                    full = callee_name(d) or ''
+                    if ARITH.search(full):
+                        arith.append(strip_generics(full).split('::')[-1])
+                    if re.search(r'From<u(64|32|8|size)>|from_u64|Hasher>::finish|::zero$|Zero>::zero', full):
+                        from_u64 = True
+            ok = not arith
+            r6.inst({'fn': top, 'site': mirq.site(b, i, j), 'from_u64_or_constant': from_u64, 'big_integer_arithmetic': arith}, ok=ok, kind=(b.nid, i, j))
+            if not ok:
+                r6.fail('%s/hash-arithmetic' % top, mirq.site(b, i, j), 'a hash value is computed with unbounded integer arithmetic (%s): the result can leave [0, 2^64) (e.g. for an inner hash of 2^64-1), and every container that re-hashes the value then fails with "hash out of bounds"' % ', '.join(sorted(set(arith))))
+    r6.need(4)
